@@ -156,8 +156,17 @@ func checkC18(p *load.Program, r *kit.Report) {
 				continue
 			}
 			n++
-			ok1, path1 := kit.DominatedByEdges(f, ret, edgesOf(vg, true), nil, p.Pos)
-			ok2, path2 := kit.DominatedByEdges(f, ret, lookups, nil, p.Pos)
+			// a merged return (helper expansion) carries the error in a phi: what matters is that
+			// the paths avoiding the pass edges arrive with a non-nil error
+			behind := func(pass []kit.Edge) (bool, string) {
+				rr := kit.Reach(f, []kit.Pt{kit.Entry(f)}, kit.Opts{BlockEdge: kit.EdgeSet(pass...)})
+				if !rr.Has(ret) || rr.ErrClass(ret) == kit.ErrNonNil {
+					return true, ""
+				}
+				return false, rr.PathTo(ret, p.Pos)
+			}
+			ok1, path1 := behind(edgesOf(vg, true))
+			ok2, path2 := behind(lookups)
 			key := k.key("VerifyMerkleProof/success")
 			switch {
 			case !ok1:
